@@ -14,7 +14,6 @@ import (
 	"github.com/libp2p/go-libp2p/x/verif/vrep"
 )
 
-
 // Watchdog aborts the worker (exit 3 = infrastructure, no verdict) when one case does not finish in
 // real time: inside a bubble that can only happen when a goroutine blocks on something synctest does not
 // own (a mutex held forever, real I/O), which virtual time cannot resolve.
@@ -184,8 +183,10 @@ func Enumerate(t *testing.T, r *vrep.Result, o EnumOptions) {
 			if shard == 0 && vi == 0 {
 				r.Note("%s: dry run: %d raw I/O calls on the outbound end (%s), %d on the inbound end (%s); rcmgr calls out=%v in=%v; gater calls out=%v in=%v; op sequence reproducible=%v",
 					cfg, dry.Ops[0], dry.Kinds[0], dry.Ops[1], dry.Kinds[1], dry.RcCalls[0], dry.RcCalls[1], dry.GaCalls[0], dry.GaCalls[1], stable)
-				dry.Trace = nil
-				r.Sample(dry)
+				if cfg == cfgs[0] {
+					dry.Trace = nil
+					r.Sample(dry)
+				}
 			}
 			for _, cs := range Cases(cfg, dry, []Variant{variant}, o.ExtraScenarios && vi == 0, o.RawDialFaults) {
 				idx++
